@@ -330,6 +330,9 @@ def header_sweep(g, n, sidp):
             words = max(0, words + r.choice([-1, 1, 2]))
         elif k < 0.2:
             words = r.choice([0, 0xffff, r.randrange(65536)])
+        elif k < 0.3:
+            # a length field that aliases the right one if high bits are dropped or only part of it is read
+            words = (words + r.choice([0x100, 0x4000, 0x8000, 0xc000, 0xff00])) & 0xffff
         body = g.bytes_(max(0, ln - 4))
         b = (hdr(v, p, cnt, pt, words) + body)[:ln] if ln >= 4 else hdr(v, p, cnt, pt, words)[:ln]
         if p and b:
